@@ -76,6 +76,20 @@ CLAIMED = {
         note="Addresses compared for ML files only (other kinds lose them on a disk by format); extensions are not compared.",
         ref="DESIGN.md section 5 C16",
     ),
+    "C17": dict(
+        engine="asm-sim",
+        technique="deterministic simulation over interpreter history: per hash seed a zygote (real interpreter, cocoasm imported, nothing assembled) forks one child per history Q1..Qk,P,P; every result is compared with the same program assembled alone in a fresh fork under hash seed 0; prior assemblies are accepted or rejected at each pipeline phase",
+        text="Seeded search over histories (k=0..6 prior programs from a deliberately tiny, colliding vocabulary; P usually a variant of some Qi; 4 hash seeds per run); result = (outcome class, image, listing, symbol table, origin, name) must equal the fresh-process result and the source line list must come back with the same str objects.",
+        note="A zygote child is the fresh-process reference; selftest --fidelity compares it with a real assembler.py subprocess. Thread safety is not demanded.",
+        ref="DESIGN.md section 5 C17",
+    ),
+    "C19": dict(
+        engine="asm-sim",
+        technique="deterministic simulation: real assembler.py processes on an in-memory working directory holding a program split at statement boundaries into an including file and 1..3 included files nested to depth 3, versus the spliced single file; injected faults: included path missing (ENOENT from open), self-include, 2-/3-cycles, cycle behind a prefix; step clock bounds every run",
+        text="Seeded search over programs (accepted and rejected, cross-boundary labels, branches, PCR operands) x split layouts; split run and spliced run must agree on exit status, listing, symbol table and image; include faults must end with exit status != 0, a printed diagnostic, no uncaught exception and no output file, within the step budget.",
+        note="Needs no reference assembler: the oracle is a second run of the same one. Paths are relative to the simulated cwd.",
+        ref="DESIGN.md section 5 C19",
+    ),
 }
 
 NOT_APPLICABLE = {
